@@ -8,7 +8,9 @@
      text quoted inside strings / raw strings / comments of v0-only, v1-only and both-version modules with detected
      and configured versions, line breaks at every token boundary), grammar-generated modules and mutations; plus
      LARGE single-call runs (>= 1000 small files in ONE Lint call, every rule and rule subsets; thorough: again with
-     a harness built with -race). "Parseable" is decided by OPA's own parser (v1, then v0), not by regal's version
+     a harness built with -race), and (round 3) a LARGE run through the DISK path with a MIXED-VERSION configuration: a
+     tree of >= 900 small files under a v0 root and a v1 root, read with rules.InputFromPaths for many rounds and linted
+     through WithInputPaths + project roots: any error on this all-valid input is a violation. "Parseable" is decided by OPA's own parser (v1, then v0), not by regal's version
      detection. Any parse rejection / error / panic / runtime fatal / hang / race report on modules OPA accepts is a
      violation with the (minimised) modules as replay;
   3. proof gate for Props/C03.v.
@@ -262,7 +264,8 @@ def run(ctx):
                 'boundary of every kind of head and body expression), grammar-generated modules, mutations), batched per Lint call with '
                 'bisection of failing batches, crash isolation and minimisation in worker processes, plus single-file runs, plus large '
                 'single-call runs (>= 1000 small files in ONE Lint call, every rule and rule subsets, GOMAXPROCS >= 16; thorough: again '
-                'under the race detector). "Parseable" is decided by OPA\'s own parser tried as v1 and v0, independently of regal\'s '
+                'under the race detector), plus a tree of >= 900 files on disk under a v0 and a v1 root read with rules.InputFromPaths '
+                '(corpus.disk_read_rounds rounds) and linted through WithInputPaths. "Parseable" is decided by OPA\'s own parser tried as v1 and v0, independently of regal\'s '
                 'version detection: a module OPA accepts and regal cannot parse is a violation',
         'propagation_scenarios': len(props), 'propagation_failing_singles': sorted({f for c in props if len(c['files']) == 1 and not c['got_ok'] for f in c['files']}),
         'framework_cases': len(keep), 'framework_cases_by_function': hist, 'conflict_errors_observed_outside_premises': conflicts_seen - len(set(r2)),
